@@ -2,6 +2,8 @@
 """Regenerates MANIFEST.json from the table below (kept in one place so it is always schema-valid)."""
 import json, subprocess, sys
 
+H = "model-based (stateful) property-based testing: generated operation histories run against the real client and a reference tracker/model in lock-step under a virtual clock"
+
 CLAIMED = {
  "C01": dict(
    technique="property-based testing (proptest): generated messages, encode/decode round trip against an independent reference TLV walk and reference HMAC/CRC",
@@ -50,6 +52,38 @@ CLAIMED = {
    text="All u16 and u8 values go through every small-domain conversion with results compared to the RFC bit layouts; generated Unicode strings (controls, combining marks, format characters, astral, lengths around 508/509/763) through every string and key constructor; nonce cookies with a multi-byte character at each byte offset 0..16; every attribute kind through all as_/is_/expect_ accessors; clone-then-mutate sequences on PasswordAlgorithms, UnknownAttributes and StunAttributes against a Vec model. A panic located in library code is a violation.",
    note="expect_* only on the matching variant. Panic attribution by source location.",
    ref="3/C19"),
+ "C03": dict(
+   technique="structure-aware mutation fuzzing with semantic oracles (proptest; libFuzzer targets in the thorough tier): decoder under 17 configurations, hostile client histories, chunked reassembly",
+   text="Mutated reference encodings and random/framed byte strings up to 64 KiB are decoded under all option combinations under catch_unwind; success implies size = 20+length <= input and the same result for the prefix alone or followed by junk; get_input_text never panics. Histories dominated by garbage and mutated replies (addressed to outstanding transactions, half re-fingerprinted, hostile NONCE/REALM/PASSWORD-ALGORITHMS in 401/438) run against clients of every mechanism, after which a fresh exchange must still complete. Mutated streams are fed to the reassembler in generated chunkings.",
+   note="Panic attribution by source location. Termination is observed as return; a watchdog turns a hang into exit 2 (inconclusive).",
+   ref="3/C03"),
+ "C05": dict(technique=H+"; history invariant 'at most one final outcome, then silence' plus hook-observed table/heap membership",
+   text="20k (quick) / 400k (thorough) histories of up to 40 operations with 1-8 concurrent requests, timers exact/early/late beyond the deadline, replies lost, duplicated, reordered, late, failing authentication or addressed to unknown ids, on both transports and all mechanisms, each followed by a notification-driven drain. Per transaction id: at most one final event, nothing emitted afterwards, late/duplicate replies rejected, responses delivered only for awaiting ids, finished ids absent from the transaction table and the timer heap.",
+   note="Trusted: the tracker (observed finals), the read-only hooks, reference codec for replies.", ref="3/C05"),
+ "C06": dict(technique=H+"; RFC 8489 slot/deadline schedule model with exact nanosecond arithmetic",
+   text="Timer-heavy histories over Rc 1-10, Rm 1-32, RTO 1 ms-3 s (or reliable timeouts), 1-8 requests sharing the timer, calls exact/early/late up to beyond the deadline and learned RTO values: every (re)transmission must happen in a call at or after an unused slot t0+(2^k-1)RTO, at most one per call and Rc in total, byte-identical; a due slot must be served; failure exactly at the first call at or after the deadline; armed expiry equals the model's (late calls skip slots, never shift the deadline). Plus the fixed default schedule 0..31500 ms / 39500 ms.",
+   note="The per-request RTO is read through the hook at send time (C15 checks that value).", ref="3/C06"),
+ "C07": dict(technique=H+"; short-term verdict model with independent HMAC verification of every sent and delivered message",
+   text="Short-term clients (algorithm preset or learned) on both transports receive per-transaction reply sequences drawn from valid MI, valid SHA256, both, none, corrupted MAC, wrong password, non-agreed algorithm, duplicates, for responses, error responses and indications, interleaved with timers and further requests. Only-if direction for every delivery (verifies under the password with the reference HMAC, agreed algorithm, never both), if-direction for single valid replies, failure handling per transport, final reason protection-violated iff a failing response was seen, and USERNAME + verifying integrity on every emitted packet.",
+   note="Marker after a both-attribute response unconstrained.", ref="3/C07"),
+ "C08": dict(technique="model-based property-based testing against a reference RFC 8489 9.2.4 server (differential acceptance oracle) plus generic long-term histories",
+   text="Scripts of 1-6 exchanges: the reference server answers each client request with a generated behaviour (401 variants, 438, authenticated / unauthenticated / wrongly keyed success, other errors, malformed and non-conforming challenges, silence); every client request must satisfy the packet oracle (no credentials before a challenge; afterwards USERNAME or USERHASH, REALM, latest NONCE, offered PASSWORD-ALGORITHMS + a supported PASSWORD-ALGORITHM, verifying integrity of the right kind, never the password) and be accepted by the reference server while the client holds its current conforming challenge; deliveries must verify under the session key; 401/438 must yield Retry, indications are refused. Two recorded deviations are excluded by construction through lenient server branches and printed as KNOWN-FINDING.",
+   note="Known findings F7/F8 listed in KNOWN_FINDINGS.txt; any other rejection by the reference server is a violation.", ref="3/C08, Appendix B"),
+ "C11": dict(technique=H+"; notification accuracy against hook-observed timer entries and a bounded notification-following controller run for sufficiency",
+   text="After every send_request/on_timeout the notification must exist iff a request is awaiting, name a request with the earliest pending deadline and give max(0, deadline-now) exactly; exactly one timer entry per awaiting request. Each history ends with a simulated controller that only follows notifications (late by generated amounts): every request must be final by the controller's first call at or after its RFC deadline, and no timer may remain. Liveness is thus decided as a finite run because the harness owns the clock.",
+   note="Up to 8 concurrent requests.", ref="3/C11"),
+ "C12": dict(technique=H+"; counting oracle (sent minus finalised) with snapshot equality on refusal",
+   text="Limits 0-4 and 10 with histories mixing sends, indications, every reply kind, rejected buffers and expiries (thorough adds 400-operation random walks): send_request returns the maximum-outstanding error exactly when sent-minus-finalised equals the limit, a refusal produces no event and leaves the snapshot unchanged, indications never touch the table, finished transactions leave it.",
+   note="Final outcomes are counted from observed events.", ref="3/C12"),
+ "C13": dict(technique=H+"; every emitted packet parsed by the reference codec and compared with a composition model",
+   text="Application attribute lists of any kinds and order with duplicates and pre-populated credential/integrity/fingerprint attributes, all mechanisms x fingerprint x credential states: each packet must be a request/indication of the asked method with a never-seen id, carry the application's attributes one per type in first-insertion order minus mechanism-owned types, then the mechanism's attributes, then at most one MI, SHA256, FINGERPRINT in that order, each verifying under the reference crypto; retransmissions byte-identical.",
+   note="Long-term decoration deviations F7/F8 are C08 known findings, not C13 alarms.", ref="3/C13"),
+ "C15": dict(technique="model-based property-based testing against a double-precision RFC 6298 reference estimator",
+   text="Histories of up to 60/300 transactions with response delays 1 ms-40 s, retransmitted or not, lost, overlapping, with idle gaps around 600 s to the nanosecond and generated initial RTO/granularity: after every send the RTO of the new request (hook and, independently, the first notification) must equal the reference within 1e-5 relative + 1 us.",
+   note="Zero response times excluded by construction.", ref="3/C15"),
+ "C17": dict(technique=H+"; snapshot equality before/after every rejected buffer and continuation against the model that ignored it",
+   text="Whenever on_buffer_recv returns an error, events() must be empty and the hook snapshot (transactions and their retransmission state, timers, RTT estimate, credential state incl. learned algorithm) equal to the previous one, except the documented violated marker of that transaction; the remaining history and the final drain are checked against the tracker that treated the rejection as a no-op.",
+   note="Rejected buffer kinds: undecodable, truncated, request, unknown/finished id, bad/missing fingerprint, ignored authentication failure, both-attributes, refused indication, long-term response without challenge, mutated replies.", ref="3/C17"),
 }
 WIP = "check not yet built in this round (work in progress, see DESIGN.md section 3)"
 ALL = ["C%02d" % i for i in range(1, 20)]
